@@ -1,6 +1,8 @@
 (* C13 (group B): importers revolut2, revolut, wise, swissquote, interactivebrokers.
    input  = "<flags> | <hex file> | <items>"   (see harness/c13b.go)
    model  = the importer model run on the items (the records Go's reader delivered)
+            (csv-records: for the importers with a plain csv reader the items are also derived from the statement's
+             bytes <hex file> with the extracted reader model Model/Csv.v, Model/CsvImp.v, and must be the same)
    spec   = evaluated on the binary's output by the observer (it needs `knut print`), which
             appends " | print=... | rows=..." to the observation; here that is turned into
             the verdict (as in drv_c13a.ml).  The statement-level specification
@@ -31,7 +33,7 @@ let required = function
 let wise_repaired = true  (* the code since the fix of findings/C13-wise-incoming-conversion.md; false = as pinned *)
 
 let run_b (imp : string) (inp : string) (obs : string) : string * string =
-  let (fl, _, items) = split3 inp in
+  let (fl, hex, items) = split3 inp in
   let flags = flag_assoc fl in
   let get k = try List.assoc k flags with Not_found -> "-" in
   let kind = get "kind" in
@@ -97,6 +99,9 @@ let run_b (imp : string) (inp : string) (obs : string) : string * string =
         else if rows <> "ok" then "FAIL:rows=" ^ rows ^ also
         else st
     else "ok" (* a damaged statement or flag: outside C13; model and binary are still compared *) in
+  (* the records the importer model starts from are the records the csv model (Model/Csv.v, Model/CsvImp.v) reads from
+     the statement's bytes: all five importers, every kind of case *)
+  let spec = match csv_records_verdict imp hex items with "" -> spec | v -> v in
   let model_line = if model = "PANIC" && cls = "PANIC" then base else model in
   (model_line ^ " | print=" ^ pr ^ " | rows=" ^ rows, spec)
 
@@ -106,8 +111,8 @@ let run_b (imp : string) (inp : string) (obs : string) : string * string =
 let run_files (inp : string) (obs : string) : string * string =
   match split_str " ## " inp with
   | [first; second] ->
-    let (fl, _, items1) = split3 first in
-    let items2 = (match split_str " | " second with [_; it] -> it | _ -> "") in
+    let (fl, hex1, items1) = split3 first in
+    let (hex2, items2) = (match split_str " | " second with [h; it] -> (h, it) | _ -> ("-", "")) in
     let flags = flag_assoc fl in
     let get k = try List.assoc k flags with Not_found -> "-" in
     let flag k = opt_flag (get k) in
@@ -120,6 +125,8 @@ let run_files (inp : string) (obs : string) : string * string =
       (* (no print verdict: two generated statements assert independent running balances of one account) *)
       else if base <> model then "FAIL:the journal of two statements is not the journal of the first followed by the journal of the second"
       else "ok" in
+    let spec = match csv_records_verdict "revolut2" hex1 items1, csv_records_verdict "revolut2" hex2 items2 with
+      | "", "" -> spec | "", v | v, _ -> v in
     (model ^ " | print=" ^ pr ^ " | rows=na", spec)
   | _ -> failwith "C13.revolut2files input"
 
